@@ -8,10 +8,14 @@
 ;; Q,i,j open-pipe; Y,i close-file-descriptor on the fileno object; U,i,f duplicate-file-descriptor;
 ;; T,a,b duplicate-file-descriptor-to; R,a,b renumber-file-descriptor; Z,i,j write a line through the output port
 ;; R[j] and read it back through the input port R[i] (its own observation: Zok / Zbad:<why> / Zskip).
+;; round 3: I,i,c R[i] := immediate number c (1 fixnum 17, 2 #t, 3 #\a, 4 '(), 5 fixnum 0; printed i<c> as key / value of an
+;; ephemeron, #f inside pairs); S,i,j open-socket-pair; PS,i,f / WS,i,f ports opened with the shutdown flag
+;; (open-input-file-descriptor f #t, as (chibi net) open-net-io does); N ignored (fresh context: embedding only).
 ;; After every G also |own=<slot>:<ok|bad>,... : for every slot holding a descriptor owner (fileno, port) whether
 ;; /proc/self/fd/<its number> still names the file it named when the owner was created.
 (import (scheme base) (scheme char) (scheme write) (scheme read) (scheme file) (scheme process-context)
-        (chibi weak) (chibi ast) (chibi filesystem) (only (chibi) fileno? port-fileno))
+        (chibi weak) (chibi ast) (chibi filesystem) (only (chibi) fileno? port-fileno)
+        (only (chibi net) open-socket-pair address-family/unix socket-type/stream))
 
 (define (hex n) (number->string n 16))
 
@@ -43,8 +47,13 @@
 (define (eph-id e obs)
   (cond ((null? obs) 0) ((eq? (cdar obs) e) (caar obs)) (else (eph-id e (cdr obs)))))
 
+(define immediates (vector #f 17 #t #\a '() 0))
+(define (immediate-code x)
+  (let lp ((c 1)) (cond ((> c 5) #f) ((eqv? x (vector-ref immediates c)) c) (else (lp (+ c 1))))))
+
 (define (fp x d obs)
   (cond ((not x) "#f")
+        ((immediate-code x) => (lambda (c) (if (>= d 6) (string-append "i" (number->string c)) "#f")))
         ((ephemeron? x) (string-append "e" (hex (eph-id x obs))))
         ((pair? x) (if (<= d 0) "_"
                        (string-append "(" (fp (car x) (- d 1) obs) " . " (fp (cdr x) (- d 1) obs) ")")))
@@ -87,22 +96,32 @@
 (define (run-history nslots ops out)
   (collect!)     ; descriptors still owned by garbage of the previous history are released before the baseline is taken
   (let ((R (make-vector nslots #f)) (obs '()) (id 0) (base (fd-count)) (firstg #t)
-        (NUM (make-vector nslots #f)) (LNK (make-vector nslots #f)) (zn 0))
+        (NUM (make-vector nslots #f)) (LNK (make-vector nslots #f)) (zn 0)
+        (PAIR (make-vector nslots #f)) (npairs 0))      ; PAIR: 2*(number of the pipe / socket pair) + end
     (define (fresh!) (set! id (+ id 1)) id)
+    (define (put! i x) (vector-set! R i x) (vector-set! PAIR i #f))
     (define (set-owner! i n) (vector-set! NUM i n) (vector-set! LNK i (link n)))
     (define (sep!) (if (not firstg) (write-string "/" out)) (set! firstg #f))
+    (define (two-ends! op p)
+      (fresh!) (fresh!)
+      (put! (cadr op) (car p)) (set-owner! (cadr op) (fileno-number (car p)))
+      (put! (list-ref op 2) (cadr p)) (set-owner! (list-ref op 2) (fileno-number (cadr p)))
+      (vector-set! PAIR (cadr op) (* 2 npairs)) (vector-set! PAIR (list-ref op 2) (+ 1 (* 2 npairs)))
+      (set! npairs (+ npairs 1)))
     (for-each
      (lambda (op)
        (case (car op)
-         ((K H) (let ((n (fresh!))) (vector-set! R (cadr op) (make-vector 1 n))))
+         ((N) #t)
+         ((K H) (let ((n (fresh!))) (put! (cadr op) (make-vector 1 n))))
+         ((I) (put! (cadr op) (vector-ref immediates (list-ref op 2))) (vector-set! NUM (cadr op) #f))
          ((B) (let* ((n (fresh!)) (v (make-vector (max 1 (list-ref op 2)) #f)))
-                (vector-set! v 0 n) (vector-set! R (cadr op) v)))
-         ((C) (fresh!) (vector-set! R (cadr op) (cons (vector-ref R (list-ref op 2)) (vector-ref R (list-ref op 3)))))
+                (vector-set! v 0 n) (put! (cadr op) v)))
+         ((C) (fresh!) (put! (cadr op) (cons (vector-ref R (list-ref op 2)) (vector-ref R (list-ref op 3)))))
          ((E) (let* ((n (fresh!))
                      (e (make-ephemeron (vector-ref R (list-ref op 2)) (vector-ref R (list-ref op 3)))))
-                (vector-set! R (cadr op) e)
+                (put! (cadr op) e)
                 (set! obs (cons (cons n e) obs))))
-         ((D) (vector-set! R (cadr op) #f) (vector-set! NUM (cadr op) #f))
+         ((D) (put! (cadr op) #f) (vector-set! NUM (cadr op) #f))
          ((G) (let ((n (gc-count)))
                 (collect!)
                 (sep!)
@@ -110,18 +129,23 @@
                 (write-string "|gc=" out) (write-string (number->string n) out)
                 (observe-owners R NUM LNK out)))
          ((O) (fresh!) (let ((p (open-input-file "/dev/null")))
-                         (vector-set! R (cadr op) p) (set-owner! (cadr op) (port-fileno p))))
+                         (put! (cadr op) p) (set-owner! (cadr op) (port-fileno p))))
          ((F) (let* ((n (fresh!)) (f (open (vector-ref files (modulo n 4)) open/read)))
-                (vector-set! R (cadr op) f) (set-owner! (cadr op) (fileno-number f))))
-         ((Q) (let ((p (open-pipe)))
-                (fresh!) (fresh!)
-                (vector-set! R (cadr op) (car p)) (set-owner! (cadr op) (fileno-number (car p)))
-                (vector-set! R (list-ref op 2) (cadr p)) (set-owner! (list-ref op 2) (fileno-number (cadr p)))))
-         ((P W) (let ((f (vector-ref R (list-ref op 2))))
-                  (if (fileno? f)
-                      (begin (fresh!)
-                             (vector-set! R (cadr op) (if (eq? (car op) 'P) (open-input-file-descriptor f) (open-output-file-descriptor f)))
-                             (set-owner! (cadr op) (fileno-number f))))))
+                (put! (cadr op) f) (set-owner! (cadr op) (fileno-number f))))
+         ((Q) (two-ends! op (open-pipe)))
+         ((S) (two-ends! op (open-socket-pair address-family/unix socket-type/stream 0)))
+         ((P W PS WS)
+          (let ((f (vector-ref R (list-ref op 2))) (pr (vector-ref PAIR (list-ref op 2))))
+            (if (fileno? f)
+                (begin (fresh!)
+                       (put! (cadr op)
+                             (case (car op)
+                               ((P) (open-input-file-descriptor f))
+                               ((W) (open-output-file-descriptor f))
+                               ((PS) (open-input-file-descriptor f #t))
+                               (else (open-output-file-descriptor f #t))))
+                       (vector-set! PAIR (cadr op) pr)
+                       (set-owner! (cadr op) (fileno-number f))))))
          ((X) (let ((p (vector-ref R (cadr op))))
                 (if (port? p) (close-port p))))
          ((XI) (let ((p (vector-ref R (cadr op))))
@@ -134,7 +158,7 @@
                 (if (fileno? f)
                     (let ((g (duplicate-file-descriptor f)))
                       (fresh!)
-                      (vector-set! R (cadr op) g)
+                      (put! (cadr op) g)
                       (if (fileno? g) (set-owner! (cadr op) (fileno-number g)) (vector-set! NUM (cadr op) #f))))))
          ((T R) (let ((a (vector-ref R (cadr op))) (b (vector-ref R (list-ref op 2))))
                   (if (and (fileno? a) (fileno? b))
@@ -144,17 +168,16 @@
                         (let ((nb (vector-ref NUM (list-ref op 2))))
                           (let lp ((i 0))
                             (if (< i nslots)
-                                (begin (if (and nb (equal? (vector-ref NUM i) nb)) (set-owner! i nb))
+                                (begin (if (and nb (equal? (vector-ref NUM i) nb))
+                                           (begin (set-owner! i nb) (vector-set! PAIR i #f)))
                                        (lp (+ i 1))))))))))
-         ((Z) (let ((in (vector-ref R (cadr op))) (o (vector-ref R (list-ref op 2))))
+         ((Z) (let ((in (vector-ref R (cadr op))) (o (vector-ref R (list-ref op 2)))
+                    (pi (vector-ref PAIR (cadr op))) (po (vector-ref PAIR (list-ref op 2))))
                 (sep!)
                 (set! zn (+ zn 1))
                 (if (and (port? in) (input-port? in) (port? o) (output-port? o)
-                         ;; the two ends of one pipe: both numbers named the same pipe:[inode] at creation
-                         (string? (vector-ref LNK (cadr op)))
-                         (equal? (vector-ref LNK (cadr op)) (vector-ref LNK (list-ref op 2)))
-                         (> (string-length (vector-ref LNK (cadr op))) 5)
-                         (string=? (substring (vector-ref LNK (cadr op)) 0 5) "pipe:"))
+                         ;; opposite ends of one pipe / socket pair
+                         pi po (= (quotient pi 2) (quotient po 2)) (not (= pi po)))
                     (let ((msg (string-append "z" (number->string zn))))
                       (write-string
                        (guard (e (#t "Zbad:exception"))
